@@ -1,5 +1,6 @@
 """Forwarding analysis: which calls of a function reach a wrapped allocator, with which symbolic arguments,
 under which path conditions.  Used by R-FWD (C09, C08, C05, C02), R-PAIR (C15) and others."""
+import re
 from . import sym
 from .facts import cls_template, top_term, tstr, subterms, strip_ns
 
@@ -121,6 +122,16 @@ def _callrec(sub, t, e, nf, roles):
     return r
 
 
+def _norm_target(c):
+    """the allocator behind a storage's locking proxy is the storage's allocator: `s.lock().operator*()` names `s.get_allocator()`"""
+    m = re.match(r'^(.*)\.lock\(\)\.operator(\*|->)\(\)$', c) if isinstance(c, str) else None
+    if m:
+        return m.group(1) + '.get_allocator()'
+    # ... also when lock() is seen through: lock_allocator(<allocator>, <mutex>) wraps exactly that allocator
+    m = re.match(r'^(?:[\w:]*::)?lock_allocator\((.*),[^,()]*\)\.operator(\*|->)\(\)$', c) if isinstance(c, str) else None
+    return m.group(1) if m else c
+
+
 class PathSummary:
     __slots__ = ('conds', 'fwd', 'calls', 'end', 'ret', 'path', 'throws', 'throw_at_fwd', 'throw_at_call', 'unwinds', 'writes', 'ret_term', 'fwd_ids', 'cond_terms', 'fields', 'ret_truth')
 
@@ -235,7 +246,7 @@ def summarize(fn, exceptional=False, extra_forward=None, roles=None, inline=None
                     if c:
                         kind, target, args, via = c
                         rc = lambda x: sym.canon(resolve_ternaries(env.subst(x), conds, roles), roles)
-                        fc = FwdCall(kind, rc(target), {r: rc(a) for r, a in args.items()}, t, e, via)
+                        fc = FwdCall(kind, _norm_target(rc(target)), {r: rc(a) for r, a in args.items()}, t, e, via)
                         fwd_ids[(f.key, t['id'])] = len(fwds)
                         fwds.append(fc)
                     else:
@@ -554,7 +565,36 @@ def ceil_div_forms(n, d):
         _bin('/', _bin('-', _bin('+', N, D), one), D),
         _bin('/', _bin('+', N, _bin('-', D, one)), D),
     ]
+    q = _bin('/', N, D)
+    forms += [{'k': 'cond', 'c': _bin('!=', _bin('%', N, D), zero), 't': _bin('+', q, one), 'f': q},
+              {'k': 'cond', 'c': _bin('%', N, D), 't': _bin('+', q, one), 'f': q},
+              {'k': 'cond', 'c': _bin('==', _bin('%', N, D), zero), 't': q, 'f': _bin('+', q, one)}]
     return {sym.canon(f) for f in forms}
+
+
+def is_ceil_div(count, n, d, conds):
+    """is the canonical term `count` ceil(n / d) on a path that has decided `conds`?  Either one of the closed forms, or the
+    quotient on the path where the remainder is zero / the quotient plus one on the path where it is not (a ternary or an if in a
+    helper that the path has already branched on)"""
+    if count in ceil_div_forms(n, d):
+        return True
+    N, D = _raw(n), _raw(d)
+    zero, one = {'k': 'lit', 'v': 0}, {'k': 'lit', 'v': 1}
+    q = sym.canon(_bin('/', N, D))
+    q1 = sym.canon(_bin('+', _bin('/', N, D), one))
+    rem = sym.canon(_bin('%', N, D))
+    remz = sym.canon(_bin('==', _bin('%', N, D), zero))
+    exact = None
+    for c, tk in conds:
+        if c == remz:
+            exact = tk
+        elif c == rem:
+            exact = not tk
+    if exact is True and count == q:
+        return True
+    if exact is False and count == q1:
+        return True
+    return False
 
 
 def implies_ge(conds, arg, param):
